@@ -205,7 +205,10 @@ def check(run):
     # compress / decompress round trip with the zlib-based stand-in for blosc
     n2 = 0
     for dt, n, cbs in roundtrip_cases(run.tier):
-        why = judge_roundtrip(dt, n, cbs, run.seed + n2)
+        try:
+            why = judge_roundtrip(dt, n, cbs, run.seed + n2)
+        except Exception as ex:      # noqa  a round trip that raises (e.g. a frame handed to the codec mid-payload) breaks the identity too
+            why = f'dtype {np.dtype(dt).name} n={n} compression_block_size={cbs}: round trip raised {ex!r}'
         n2 += 1
         if why:
             run.bounded_violation('compress/decompress round trip', dict(dtype=np.dtype(dt).name, n=n, compression_block_size=cbs), why)
